@@ -89,8 +89,36 @@ class Interp:
             return [SRef(self.c.hget(v, '$t%d' % i), None) for i in range(n)]
         raise Unsupported('unpacking %r' % (v,))
 
+    def check_guard(self, obj, attr, how):
+        """Lock discipline: a field declared guarded_by(lock) may only be touched with the lock held, and a test
+        followed by a write must lie in ONE critical section."""
+        key = (obj.pytype, attr)
+        if key not in self.w.guarded or getattr(self, 'guard_off', False):
+            return
+        if how == 'read' and key in getattr(self.w, 'guarded_read_relaxed', ()):
+            return          # a lone read whose value is only returned is its own linearisation point
+        c = self.c
+        lockattr = self.w.guarded[key]
+        where = self.where()
+        if lockattr is None or lockattr not in self.src.init_attrs(obj.pytype):
+            c.prove('%s:guarded/%s-of-%s-without-any-lock' % (where, how, attr), z3.BoolVal(False), tags=('lock',),
+                    assume_after=False)
+            return
+        lock = SRef(c.hget(obj, lockattr), 'RLock')
+        held, ep = c.hget(lock, 'held'), c.hget(lock, 'epoch')
+        c.prove('%s:guarded/%s-of-%s-holds-%s' % (where, how, attr, lockattr), held > 0, tags=('lock',),
+                assume_after=False)
+        k = ('rd_epoch', obj.e.sexpr(), attr)
+        if how == 'read':
+            c.pyghost[k] = ep
+        elif k in c.pyghost:
+            c.prove('%s:atomic/test-and-set-of-%s-in-one-critical-section' % (where, attr), ep == c.pyghost[k],
+                    tags=('lock',), assume_after=False)
+
     def set_attr(self, obj, attr, v):
         c = self.c
+        if isinstance(obj, SRef) and obj.pytype in self.src.classes:
+            self.check_guard(obj, attr, 'write')
         if isinstance(obj, SRef):
             if field_sort(attr) == Ref and isinstance(v, SFunc) and v.bound is None and v.info.parent is None \
                     and attr in ('state_fn',):
@@ -208,6 +236,13 @@ class Interp:
         call = item.context_expr
         if not isinstance(call, ast.Call):
             v = self.eval(call)
+            if isinstance(v, SRef) and v.pytype == 'RLock' and item.optional_vars is None:
+                B.lock_call(self, v, 'acquire')
+                try:
+                    self.exec_block(st.body)
+                finally:
+                    B.lock_call(self, v, 'release')
+                return
             if isinstance(v, SRef) and v.pytype == 'Lock' and item.optional_vars is None:
                 self.w.dropped.add('with <queue>.mutex: (mutual exclusion of one statement; no effect on sequential state)')
                 self.exec_block(st.body)
@@ -639,6 +674,8 @@ class Interp:
             return self.w_method(fi).bind(obj.obj)
         if isinstance(obj, SRef):
             pt = obj.pytype
+            if attr == '__dict__' and (pt in self.src.classes or pt == 'object' or pt == 'instance'):
+                return SRef(c.hget(obj, '$dict'), 'dict')
             if pt in self.src.classes and pt != 'Attribute':
                 if attr == '__class__':
                     return SClass(pt)
@@ -653,6 +690,7 @@ class Interp:
                 if cav is not None:
                     return self.class_attr(SClass(pt), attr)
                 self.check_defined(obj, attr)
+                self.check_guard(obj, attr, 'read')
                 if attr in self.src.namedtuples:
                     return SClass('namedtuple:' + attr)      # self.X = namedtuple(...) made in __init__
                 return c.read(obj, attr)
